@@ -137,7 +137,13 @@ def r111(ctx, R):
                         # source: nothing contradicts the column name
                         ok = True
                     else:
-                        ok = same or got in (want or set())
+                        # parameter positions are not part of the reviewed
+                        # source (a private helper's parameters may be
+                        # reordered): argN is compared as 'arg'
+                        def _m(x):
+                            return re.sub(r'arg\d+', 'arg', x)
+                        ok = same or _m(got) in {_m(w) for w in
+                                                 (want or set())}
                     want = want or set()
                     R.ob('R11.1', '%s:%s.%s' % (f.qbase, e.table, k.arg), ok,
                          'a stored column takes the same-named attribute of '
